@@ -438,6 +438,19 @@ def first_difference(src, impl_text, model_text):
     return d
 
 
+def all_differences(text_a, text_b):
+    """All (node, key) pairs on which two annotation dumps differ ([] if either is not a dump)."""
+    try:
+        pa, pb = parse_sexp(text_a), parse_sexp(text_b)
+        if (pa and pa[0] == 'crash') or (pb and pb[0] == 'crash'):
+            return []
+        da = {(x[0], x[1]): x[2] for x in pa}
+        db = {(x[0], x[1]): x[2] for x in pb}
+        return [k for k in sorted(set(da) | set(db), key=lambda k: (int(k[0]), k[1])) if da.get(k) != db.get(k)]
+    except Exception:
+        return []
+
+
 def repo_correspondence(run, stats):
     """(1) on every function of /repo (syntactic corpus; not executed, not compared with symtable)."""
     lines, exp, meta, impls = [], [], [], []
@@ -543,15 +556,22 @@ def reanalysis_slice(run, stats, cases, only=None):
             run_fail(run, stats, 'analysing the same tree twice gives different results', dict(case, observation=['idempotence', d.get('node'), d.get('key')]), None)
             dis.append(dict(d, what='idempotence'))
         if r.re_text != r.fresh_text:
+            diffs = all_differences(r.re_text, r.fresh_text)
+            # known deviation class: the only stale annotations are the SCOPEs of lambda bodies
+            # (visit_Lambda attaches SCOPE to the body only `if not anno.hasanno(...)`)
+            cls = 'lambdaBodyStaleScope' if diffs and all(k == 'SCOPE' and n in r.lambda_body_ids for n, k in diffs) else None
             d = first_difference(r.edited_source, r.re_text, r.fresh_text)
             run_fail(run, stats, 'after the annotation-preserving edit %r (%s) the re-run analysis differs from the analysis of the '
                      'same program parsed afresh: node %s/%s' % (r.kind, r.mapping, d.get('node'), d.get('key')),
-                     dict(case, edited_source=r.edited_source, observation=['stale-annotations', d.get('node'), d.get('key')]), None)
-            dis.append(dict(d, what='re-analysis vs fresh parse', edit=r.kind, mapping=r.mapping))
+                     dict(case, edited_source=r.edited_source, observation=['stale-annotations', d.get('node'), d.get('key')]), cls)
+            if cls is None:
+                dis.append(dict(d, what='re-analysis vs fresh parse', edit=r.kind, mapping=r.mapping))
         if r.model_comparable and run.driver_ok:
             a = answers[ai]; ai += 1
             run.evaluations += 1
-            if a != r.re_text and r.re_text == r.fresh_text:
+            if a != r.fresh_text:
+                dis.append(dict(first_difference(r.edited_source, r.fresh_text, a), what='fresh analysis of the edited program vs model'))
+            elif a != r.re_text and r.re_text == r.fresh_text:
                 dis.append(dict(first_difference(r.edited_source, r.re_text, a), what='re-analysis vs model'))
     return dis
 
